@@ -250,6 +250,9 @@ def build_harness():
         write_if_changed(os.path.join(BUILD, "alt.go.sum"), open(os.path.join(hdir, "go.sum")).read())
         cmd += ["-modfile", alt]
     rc, out, dt = sh(cmd + ["."], cwd=hdir, env=GOENV, timeout=1200)
+    if rc != 0 and ("no such file or directory" in out or "cache" in out):
+        # the Go build cache was trimmed under a running build (shared machine): not a verdict, build again
+        rc, out, dt = sh(cmd + ["."], cwd=hdir, env=GOENV, timeout=1200)
     return rc == 0, out
 
 def run_harness(prop, tier, seed, outdir, timeout):
@@ -297,6 +300,21 @@ def eval_cases(outdir, meta, timeout=1500):
                 outp.close()
                 results[i] = (rc, f)
         running = still
+    # a shard whose coqc was killed by a signal (rc < 0: the kernel's OOM killer on a loaded machine) or that ran
+    # into the shared time limit while 16 shards competed says nothing about the property: evaluate it again, alone
+    for i, f in enumerate(files):
+        if results[i][0] < 0 or results[i][0] == 124:
+            for _attempt in range(2):
+                (_, _, p, outp) = launch(i, f)
+                try:
+                    rc2 = p.wait(timeout=timeout)
+                except subprocess.TimeoutExpired:
+                    p.kill()
+                    rc2 = 124
+                outp.close()
+                results[i] = (rc2, f)
+                if rc2 >= 0 and rc2 != 124:
+                    break
     sizes = []
     for f in files:
         txt = open(os.path.join(outdir, f)).read()
